@@ -63,7 +63,6 @@ import (
 const (
 	c19FindBlobUTF8     = "C19-json-blob-invalid-utf8"
 	c19FindArrowDecimal = "C19-arrow-decimal-overflow-empty-200"
-	c19FindJSONDecimal  = "C19-json-decimal-precision"
 	c19FindArrowRace    = "C19-arrow-trailer-header-race"
 )
 
@@ -239,45 +238,45 @@ func c19lit(t string, vs ...string) []string {
 }
 
 var c19Kinds = []c19Kind{
-	{Name: "bool", T: "BOOLEAN", Native: nBool, Msg: "bool", Lits: []string{"true", "false"}, Computed: []string{"(i % 2 = 0)"}},
-	{Name: "int8", T: "TINYINT", Native: nInt, Msg: "int8", Lits: c19lit("TINYINT", "-128", "127", "0", "-1"), Computed: []string{"CAST(i % 256 - 128 AS TINYINT)"}, Trivial: true},
-	{Name: "int16", T: "SMALLINT", Native: nInt, Msg: "int16", Lits: c19lit("SMALLINT", "-32768", "32767", "0", "-129", "256"), Computed: []string{"CAST(i * 7 % 65536 - 32768 AS SMALLINT)"}, Trivial: true},
-	{Name: "int32", T: "INTEGER", Native: nInt, Msg: "int32", Lits: c19lit("INTEGER", "-2147483648", "2147483647", "0", "-32769", "65536"), Computed: []string{"CAST(i * 104729 - 2147483648 AS INTEGER)"}, Trivial: true},
-	{Name: "int64", T: "BIGINT", Native: nInt, Msg: "int64", Lits: c19lit("BIGINT", "-9223372036854775808", "9223372036854775807", "9007199254740993", "-9007199254740993", "0", "4294967296"), Computed: []string{"(i * 922337203685477 - 4611686018427387904)", "i"}, Trivial: true},
-	{Name: "uint8", T: "UTINYINT", Native: nUint, Msg: "uint8", Lits: c19lit("UTINYINT", "255", "0", "128"), Computed: []string{"CAST(i % 256 AS UTINYINT)"}, Trivial: true},
-	{Name: "uint16", T: "USMALLINT", Native: nUint, Msg: "uint16", Lits: c19lit("USMALLINT", "65535", "0", "32768", "256"), Computed: []string{"CAST(i * 13 % 65536 AS USMALLINT)"}, Trivial: true},
-	{Name: "uint32", T: "UINTEGER", Native: nUint, Msg: "uint32", Lits: c19lit("UINTEGER", "4294967295", "0", "2147483648", "65536"), Computed: []string{"CAST(i * 429496 AS UINTEGER)"}, Trivial: true},
-	{Name: "uint64", T: "UBIGINT", Native: nUint, Msg: "uint64", Lits: c19lit("UBIGINT", "18446744073709551615", "9223372036854775808", "9007199254740993", "0"), Computed: []string{"CAST(i AS UBIGINT) * 1844674407370955"}, Trivial: true},
-	{Name: "hugeint", T: "HUGEINT", Native: nDec0, Msg: "int64", Lits: c19lit("HUGEINT", "0", "42", "-42", "4611686018427387904", "-4611686018427387905"), Computed: []string{"CAST(i AS HUGEINT) * 1000000007 - 5"}},
-	{Name: "hugeint-wide", T: "HUGEINT", Native: nDec0, Msg: "int64", Lits: c19lit("HUGEINT", "170141183460469231731687303715884105727", "-170141183460469231731687303715884105727", "9223372036854775808", "9223372036854775807", "-9223372036854775808", "12345678901234567890123", "7")},
-	{Name: "dec4_2", T: "DECIMAL(4,2)", Native: nDecS, Msg: "float64", Lits: c19lit("DECIMAL(4,2)", "99.99", "-99.99", "0.01", "0", "1.50"), Computed: []string{"CAST((i % 1999) / 100.0 - 9.99 AS DECIMAL(4,2))"}},
-	{Name: "dec9_0", T: "DECIMAL(9,0)", Native: nDec0, Msg: "int64", Lits: c19lit("DECIMAL(9,0)", "999999999", "-999999999", "0", "1"), Computed: []string{"CAST(i * 99991 AS DECIMAL(9,0))"}},
-	{Name: "dec18_6", T: "DECIMAL(18,6)", Native: nDecS, Msg: "float64", Lits: c19lit("DECIMAL(18,6)", "123456789012.345678", "-0.000001", "999999999999.999999", "0"), Computed: []string{"CAST(i AS DECIMAL(18,6)) / 7"}},
-	{Name: "dec38_0", T: "DECIMAL(38,0)", Native: nDec0, Msg: "int64", Lits: c19lit("DECIMAL(38,0)", "4611686018427387904", "-4611686018427387905", "123", "0")},
-	{Name: "dec38_10", T: "DECIMAL(38,10)", Native: nDecS, Msg: "float64", Lits: c19lit("DECIMAL(38,10)", "12345.0123456789", "-0.0000000001", "1", "1234567890123456.5")},
-	{Name: "dec38_10-wide", T: "DECIMAL(38,10)", Native: nDecS, Msg: "float64", Lits: c19lit("DECIMAL(38,10)", "1234567890123456789012345678.0123456789", "-9999999999999999999999999999.9999999999", "0.3")},
-	{Name: "dec38_0-wide", T: "DECIMAL(38,0)", Native: nDec0, Msg: "int64", Lits: c19lit("DECIMAL(38,0)", "99999999999999999999999999999999999999", "-12345678901234567890123456789", "9223372036854775807", "-9223372036854775808", "5")},
-	{Name: "float", T: "FLOAT", Native: nF32, Msg: "float32", Lits: c19lit("FLOAT", "'NaN'", "'Infinity'", "'-Infinity'", "-0.0", "1.5", "3.4028235e38", "1e-45", "0.1", "16777217"), Computed: []string{"CAST(i AS FLOAT) / 3"}, Trivial: true},
-	{Name: "double", T: "DOUBLE", Native: nF64, Msg: "float64", Lits: c19lit("DOUBLE", "'NaN'", "'Infinity'", "'-Infinity'", "-0.0", "0.1", "1.7976931348623157e308", "5e-324", "1e21", "123456789.123456789", "-1e-7"), Computed: []string{"CAST(i AS DOUBLE) / 7", "sqrt(CAST(i AS DOUBLE))"}, Trivial: true},
 	{Name: "varchar", T: "VARCHAR", Native: nStr, Msg: "utf8", Lits: []string{"'plain'", "''", "'it''s'", "'say \"hi\"'", "'back\\slash\\\\'", "'tab' || chr(9) || 'nl' || chr(10) || 'cr' || chr(13)", "'ctl' || chr(1) || chr(8) || chr(12) || chr(27) || chr(31)", "'nul' || chr(0) || 'x'", "'del' || chr(127)", "'ünïcödé ß'", "'日本語テキスト'", "'emoji 😀 𝄞'", "'ls' || chr(8232) || 'ps' || chr(8233)", "'</script><!--'", "repeat('xy\"', 150)", "'{\"a\": [1, null]}'", "'null'", "'\\u0041'"}, Computed: []string{"'s' || CAST(i AS VARCHAR)", "chr(CAST(1 + i % 2000 AS INTEGER))"}, Trivial: true},
 	{Name: "blob", T: "BLOB", Native: nBlob, Msg: "binary", Lits: []string{"'abc'::BLOB", "''::BLOB", "'\\x22\\x5C\\x0A'::BLOB", "'\\xC3\\xA9'::BLOB", "'\\x00\\x01\\x1F'::BLOB", "encode('ünï')"}, Computed: []string{"encode('b' || CAST(i AS VARCHAR))"}},
-	{Name: "blob-bin", T: "BLOB", Native: nBlob, Msg: "binary", Lits: []string{"'\\xDE\\xAD\\xBE\\xEF'::BLOB", "'\\xFF'::BLOB", "'\\x80abc'::BLOB", "'\\xC3'::BLOB", "'ok'::BLOB"}},
-	{Name: "date", T: "DATE", Native: nDate, Msg: "date32", Lits: []string{"DATE '2024-02-29'", "DATE '1970-01-01'", "DATE '1969-12-31'", "DATE '0001-01-01'", "DATE '9999-12-31'", "DATE '2262-04-12'"}, Computed: []string{"DATE '2000-01-01' + CAST(i AS INTEGER)"}},
+	{Name: "double", T: "DOUBLE", Native: nF64, Msg: "float64", Lits: c19lit("DOUBLE", "'NaN'", "'Infinity'", "'-Infinity'", "-0.0", "0.1", "1.7976931348623157e308", "5e-324", "1e21", "123456789.123456789", "-1e-7"), Computed: []string{"CAST(i AS DOUBLE) / 7", "sqrt(CAST(i AS DOUBLE))"}, Trivial: true},
 	{Name: "timestamp", T: "TIMESTAMP", Native: nTS, Msg: "timestamp[us]", Lits: []string{"TIMESTAMP '2024-03-10 12:34:56.789012'", "TIMESTAMP '1969-12-31 23:59:59.999999'", "TIMESTAMP '1970-01-01 00:00:00'", "TIMESTAMP '0001-01-01 00:00:00'", "TIMESTAMP '9999-12-31 23:59:59.999999'", "TIMESTAMP '2262-04-12 00:00:00.5'"}, Computed: []string{"TIMESTAMP '2024-01-01 00:00:00' + INTERVAL (i) SECOND", "make_timestamp(1700000000000000 + i * 1000003)"}},
-	{Name: "timestamp_s", T: "TIMESTAMP_S", Native: nTS, Msg: "timestamp[s]", Lits: []string{"TIMESTAMP_S '2024-03-10 12:34:56'", "TIMESTAMP_S '1969-12-31 23:59:59'", "TIMESTAMP_S '9999-12-31 23:59:59'"}, Computed: []string{"CAST(TIMESTAMP '2020-01-01 00:00:00' + INTERVAL (i) MINUTE AS TIMESTAMP_S)"}},
-	{Name: "timestamp_ms", T: "TIMESTAMP_MS", Native: nTS, Msg: "timestamp[ms]", Lits: []string{"TIMESTAMP_MS '2024-03-10 12:34:56.789'", "TIMESTAMP_MS '1969-12-31 23:59:59.999'", "TIMESTAMP_MS '0001-01-01 00:00:00.001'"}, Computed: []string{"CAST(TIMESTAMP '2020-01-01 00:00:00.123' + INTERVAL (i) HOUR AS TIMESTAMP_MS)"}},
-	{Name: "timestamp_ns", T: "TIMESTAMP_NS", Native: nTS, Msg: "timestamp[ns]", Lits: []string{"TIMESTAMP_NS '2024-03-10 12:34:56.123456789'", "TIMESTAMP_NS '1969-12-31 23:59:59.999999999'", "TIMESTAMP_NS '1677-09-22 00:00:00'", "TIMESTAMP_NS '2262-04-11 23:47:16.854775'"}, Computed: []string{"CAST(TIMESTAMP '2020-01-01 00:00:00' + INTERVAL (i) SECOND AS TIMESTAMP_NS)"}},
+	{Name: "float", T: "FLOAT", Native: nF32, Msg: "float32", Lits: c19lit("FLOAT", "'NaN'", "'Infinity'", "'-Infinity'", "-0.0", "1.5", "3.4028235e38", "1e-45", "0.1", "16777217"), Computed: []string{"CAST(i AS FLOAT) / 3"}, Trivial: true},
+	{Name: "dec18_6", T: "DECIMAL(18,6)", Native: nDecS, Msg: "float64", Lits: c19lit("DECIMAL(18,6)", "123456789012.345678", "-0.000001", "999999999999.999999", "0"), Computed: []string{"CAST(i AS DECIMAL(18,6)) / 7"}},
 	{Name: "timestamptz", T: "TIMESTAMPTZ", Native: nTS, Msg: "timestamp[us]", Lits: []string{"TIMESTAMPTZ '2024-03-10 12:34:56.789012+05:30'", "TIMESTAMPTZ '1969-12-31 23:59:59.999999-11:00'", "TIMESTAMPTZ '2024-11-03 01:30:00+00'", "TIMESTAMPTZ '0001-01-02 00:00:00+00'"}, Computed: []string{"TIMESTAMPTZ '2024-01-01 00:00:00+02' + INTERVAL (i) MINUTE"}},
-	{Name: "time", T: "TIME", Native: nText, Msg: "string_encoded", Lits: []string{"TIME '12:34:56.789'", "TIME '00:00:00'", "TIME '23:59:59.999999'"}, Computed: []string{"TIME '00:00:00' + INTERVAL (i % 86400) SECOND"}},
-	{Name: "interval", T: "INTERVAL", Native: nText, Msg: "string_encoded", Lits: []string{"INTERVAL '1 year 2 months 3 days 04:05:06.789'", "INTERVAL '-5 days'", "INTERVAL '0 seconds'", "INTERVAL '100 months'"}, Computed: []string{"INTERVAL (i) DAY", "INTERVAL (i * 1000) MILLISECOND"}},
+	{Name: "blob-bin", T: "BLOB", Native: nBlob, Msg: "binary", Lits: []string{"'\\xDE\\xAD\\xBE\\xEF'::BLOB", "'\\xFF'::BLOB", "'\\x80abc'::BLOB", "'\\xC3'::BLOB", "'ok'::BLOB"}},
+	{Name: "uint64", T: "UBIGINT", Native: nUint, Msg: "uint64", Lits: c19lit("UBIGINT", "18446744073709551615", "9223372036854775808", "9007199254740993", "0"), Computed: []string{"CAST(i AS UBIGINT) * 1844674407370955"}, Trivial: true},
+	{Name: "timestamp_ns", T: "TIMESTAMP_NS", Native: nTS, Msg: "timestamp[ns]", Lits: []string{"TIMESTAMP_NS '2024-03-10 12:34:56.123456789'", "TIMESTAMP_NS '1969-12-31 23:59:59.999999999'", "TIMESTAMP_NS '1677-09-22 00:00:00'", "TIMESTAMP_NS '2262-04-11 23:47:16.854775'"}, Computed: []string{"CAST(TIMESTAMP '2020-01-01 00:00:00' + INTERVAL (i) SECOND AS TIMESTAMP_NS)"}},
+	{Name: "hugeint", T: "HUGEINT", Native: nDec0, Msg: "int64", Lits: c19lit("HUGEINT", "0", "42", "-42", "4611686018427387904", "-4611686018427387905"), Computed: []string{"CAST(i AS HUGEINT) * 1000000007 - 5"}},
+	{Name: "date", T: "DATE", Native: nDate, Msg: "date32", Lits: []string{"DATE '2024-02-29'", "DATE '1970-01-01'", "DATE '1969-12-31'", "DATE '0001-01-01'", "DATE '9999-12-31'", "DATE '2262-04-12'"}, Computed: []string{"DATE '2000-01-01' + CAST(i AS INTEGER)"}},
+	{Name: "int64", T: "BIGINT", Native: nInt, Msg: "int64", Lits: c19lit("BIGINT", "-9223372036854775808", "9223372036854775807", "9007199254740993", "-9007199254740993", "0", "4294967296"), Computed: []string{"(i * 922337203685477 - 4611686018427387904)", "i"}, Trivial: true},
+	{Name: "dec38_10", T: "DECIMAL(38,10)", Native: nDecS, Msg: "float64", Lits: c19lit("DECIMAL(38,10)", "12345.0123456789", "-0.0000000001", "1", "1234567890123456.5")},
 	{Name: "list", T: "INTEGER[]", Native: nText, Msg: "list", Lits: []string{"[1, 2, NULL]", "CAST([] AS INTEGER[])", "[2147483647]"}, Computed: []string{"[CAST(i AS INTEGER), CAST(i * 2 AS INTEGER)]", "range(CAST(i % 4 AS INTEGER))::INTEGER[]"}},
-	{Name: "list-str", T: "VARCHAR[]", Native: nText, Msg: "list", Lits: []string{"['a', 'b\"c', NULL]", "['it''s', '']", "[chr(10) || 'x']"}},
-	{Name: "list-nested", T: "INTEGER[][]", Native: nText, Msg: "list", Lits: []string{"[[1], [2, 3], NULL]", "[CAST([] AS INTEGER[])]"}},
+	{Name: "timestamp_ms", T: "TIMESTAMP_MS", Native: nTS, Msg: "timestamp[ms]", Lits: []string{"TIMESTAMP_MS '2024-03-10 12:34:56.789'", "TIMESTAMP_MS '1969-12-31 23:59:59.999'", "TIMESTAMP_MS '0001-01-01 00:00:00.001'"}, Computed: []string{"CAST(TIMESTAMP '2020-01-01 00:00:00.123' + INTERVAL (i) HOUR AS TIMESTAMP_MS)"}},
 	{Name: "struct", T: "STRUCT(a INTEGER, b VARCHAR)", Native: nText, Msg: "struct", Lits: []string{"{'a': 1, 'b': 'x'}", "{'a': NULL, 'b': 'q\"r'}", "{'a': -5, 'b': NULL}"}, Computed: []string{"{'a': CAST(i AS INTEGER), 'b': 'v' || CAST(i AS VARCHAR)}"}},
-	{Name: "map", T: "MAP(VARCHAR, INTEGER)", Native: nText, Msg: "map", Lits: []string{"MAP {'k': 1, 'l': 2}", "MAP {'only': NULL}", "CAST(MAP {} AS MAP(VARCHAR, INTEGER))"}},
+	{Name: "dec4_2", T: "DECIMAL(4,2)", Native: nDecS, Msg: "float64", Lits: c19lit("DECIMAL(4,2)", "99.99", "-99.99", "0.01", "0", "1.50"), Computed: []string{"CAST((i % 1999) / 100.0 - 9.99 AS DECIMAL(4,2))"}},
+	{Name: "interval", T: "INTERVAL", Native: nText, Msg: "string_encoded", Lits: []string{"INTERVAL '1 year 2 months 3 days 04:05:06.789'", "INTERVAL '-5 days'", "INTERVAL '0 seconds'", "INTERVAL '100 months'"}, Computed: []string{"INTERVAL (i) DAY", "INTERVAL (i * 1000) MILLISECOND"}},
+	{Name: "timestamp_s", T: "TIMESTAMP_S", Native: nTS, Msg: "timestamp[s]", Lits: []string{"TIMESTAMP_S '2024-03-10 12:34:56'", "TIMESTAMP_S '1969-12-31 23:59:59'", "TIMESTAMP_S '9999-12-31 23:59:59'"}, Computed: []string{"CAST(TIMESTAMP '2020-01-01 00:00:00' + INTERVAL (i) MINUTE AS TIMESTAMP_S)"}},
+	{Name: "hugeint-wide", T: "HUGEINT", Native: nDec0, Msg: "int64", Lits: c19lit("HUGEINT", "170141183460469231731687303715884105727", "-170141183460469231731687303715884105727", "9223372036854775808", "9223372036854775807", "-9223372036854775808", "12345678901234567890123", "7")},
+	{Name: "dec38_0", T: "DECIMAL(38,0)", Native: nDec0, Msg: "int64", Lits: c19lit("DECIMAL(38,0)", "4611686018427387904", "-4611686018427387905", "123", "0")},
 	{Name: "uuid", T: "UUID", Native: nUUID, Msg: "", Lits: c19lit("UUID", "'550e8400-e29b-41d4-a716-446655440000'", "'00000000-0000-0000-0000-000000000000'", "'ffffffff-ffff-ffff-ffff-ffffffffffff'")},
+	{Name: "time", T: "TIME", Native: nText, Msg: "string_encoded", Lits: []string{"TIME '12:34:56.789'", "TIME '00:00:00'", "TIME '23:59:59.999999'"}, Computed: []string{"TIME '00:00:00' + INTERVAL (i % 86400) SECOND"}},
+	{Name: "bool", T: "BOOLEAN", Native: nBool, Msg: "bool", Lits: []string{"true", "false"}, Computed: []string{"(i % 2 = 0)"}},
+	{Name: "dec38_10-wide", T: "DECIMAL(38,10)", Native: nDecS, Msg: "float64", Lits: c19lit("DECIMAL(38,10)", "1234567890123456789012345678.0123456789", "-9999999999999999999999999999.9999999999", "0.3")},
+	{Name: "uint32", T: "UINTEGER", Native: nUint, Msg: "uint32", Lits: c19lit("UINTEGER", "4294967295", "0", "2147483648", "65536"), Computed: []string{"CAST(i * 429496 AS UINTEGER)"}, Trivial: true},
+	{Name: "int32", T: "INTEGER", Native: nInt, Msg: "int32", Lits: c19lit("INTEGER", "-2147483648", "2147483647", "0", "-32769", "65536"), Computed: []string{"CAST(i * 104729 - 2147483648 AS INTEGER)"}, Trivial: true},
+	{Name: "map", T: "MAP(VARCHAR, INTEGER)", Native: nText, Msg: "map", Lits: []string{"MAP {'k': 1, 'l': 2}", "MAP {'only': NULL}", "CAST(MAP {} AS MAP(VARCHAR, INTEGER))"}},
+	{Name: "dec9_0", T: "DECIMAL(9,0)", Native: nDec0, Msg: "int64", Lits: c19lit("DECIMAL(9,0)", "999999999", "-999999999", "0", "1"), Computed: []string{"CAST(i * 99991 AS DECIMAL(9,0))"}},
+	{Name: "list-str", T: "VARCHAR[]", Native: nText, Msg: "list", Lits: []string{"['a', 'b\"c', NULL]", "['it''s', '']", "[chr(10) || 'x']"}},
 	{Name: "enum", T: "ENUM('lo', 'mid', 'hi')", Native: nText, Msg: "", Lits: c19lit("ENUM('lo', 'mid', 'hi')", "'lo'", "'hi'", "'mid'")},
+	{Name: "dec38_0-wide", T: "DECIMAL(38,0)", Native: nDec0, Msg: "int64", Lits: c19lit("DECIMAL(38,0)", "99999999999999999999999999999999999999", "-12345678901234567890123456789", "9223372036854775807", "-9223372036854775808", "5")},
+	{Name: "int16", T: "SMALLINT", Native: nInt, Msg: "int16", Lits: c19lit("SMALLINT", "-32768", "32767", "0", "-129", "256"), Computed: []string{"CAST(i * 7 % 65536 - 32768 AS SMALLINT)"}, Trivial: true},
+	{Name: "uint16", T: "USMALLINT", Native: nUint, Msg: "uint16", Lits: c19lit("USMALLINT", "65535", "0", "32768", "256"), Computed: []string{"CAST(i * 13 % 65536 AS USMALLINT)"}, Trivial: true},
+	{Name: "list-nested", T: "INTEGER[][]", Native: nText, Msg: "list", Lits: []string{"[[1], [2, 3], NULL]", "[CAST([] AS INTEGER[])]"}},
 	{Name: "null", T: "", Native: nNull, Msg: "", Lits: []string{"NULL"}},
+	{Name: "int8", T: "TINYINT", Native: nInt, Msg: "int8", Lits: c19lit("TINYINT", "-128", "127", "0", "-1"), Computed: []string{"CAST(i % 256 - 128 AS TINYINT)"}, Trivial: true},
+	{Name: "uint8", T: "UTINYINT", Native: nUint, Msg: "uint8", Lits: c19lit("UTINYINT", "255", "0", "128"), Computed: []string{"CAST(i % 256 AS UTINYINT)"}, Trivial: true},
 }
 
 var c19Aliases = []string{"c", "v", "Mixed Case", "we\"ird", "naïve", "日本", "a'b", "back\\slash", "tab\there", "time", "value", "dup", "dup", "semi;colon", "x-y", "__STR_0__"}
@@ -310,10 +309,6 @@ func c19GenCol(t *rapid.T, idx int, only string) (c19Col, *c19Kind) {
 		}
 		if verifkit.Excluded(c19FindBlobUTF8) && k.Name == "blob-bin" {
 			verifkit.CountExcluded(c19FindBlobUTF8)
-			continue
-		}
-		if verifkit.Excluded(c19FindJSONDecimal) && (k.Name == "dec38_10-wide") {
-			verifkit.CountExcluded(c19FindJSONDecimal)
 			continue
 		}
 		break
@@ -804,9 +799,18 @@ func c19JSONCell(k *c19Kind, got any, tr *c19Truth, r, j int) string {
 			}
 			return "decimal neither text nor exact number"
 		}
-		if !c19SameRat(s, text) {
-			return "decimal text denotes a different number"
+		// DuckDB's text form (compared as a number, so 1.5 == 1.50) or Arrow's
+		// ValueStr of DuckDB's own array; the sources leave the choice open.
+		if c19SameRat(s, text) {
+			verifkit.Class("json-decimal=exact")
+			return ""
 		}
+		a, i := tr.Arrow.cell(j, r)
+		if s == a.ValueStr(i) {
+			verifkit.Class("json-decimal=arrow-valuestr-rounded")
+			return ""
+		}
+		return "decimal text is neither DuckDB's number nor Arrow's ValueStr of it"
 	case nUUID:
 		s, ok := got.(string)
 		if !ok || s != text {
@@ -1375,7 +1379,7 @@ func TestVerifKF_C19_arrow_header_race(t *testing.T) {
 // the whole response body stops being valid UTF-8 / RFC 8259 JSON.
 func TestVerifKF_C19_json_blob_utf8(t *testing.T) {
 	e := c19NewEnv(t)
-	q := `SELECT '\xDE\xAD'::BLOB AS b`
+	q := `SELECT '\xFF\xFE'::BLOB AS b`
 	r, err := e.post("/api/v1/query", q, nil)
 	rep := err == nil && r.Status == 200 && !utf8.Valid(r.Body)
 	verifkit.KnownFinding(c19FindBlobUTF8, rep, "JSON body is not valid UTF-8 for "+q+": "+c19Short(string(r.Body)))
